@@ -1,6 +1,7 @@
 package main
 
 import (
+	"io"
 	"bytes"
 	"fmt"
 	"mime"
@@ -101,6 +102,9 @@ func kApiRoundtrip(args []string) (string, string) {
 	}
 	var sb bytes.Buffer
 	_, _ = wf.Write(&sb)
+	if d := writeFaultCheck(sb.Bytes(), func(w io.Writer) (int64, error) { return wf.Write(w) }); d != "" {
+		return "write-fault-swallowed", "VIOL api-roundtrip-write-fault " + sanitize(d)
+	}
 	// what the API holds
 	for _, line := range strings.Split(strings.TrimSuffix(wf.String(), "\r\n"), "\r\n") {
 		if line == "" {
